@@ -424,7 +424,7 @@ func c09Scenarios(th bool) []vx.Scenario {
 		{"X-Inverting-Proxy-User-ID:"},
 		{"X-Inverting-Proxy-User-ID: u@example.com"},
 	}
-	authLines := [][]string{nil, {"Authorization: Bearer x"}, {"authorization: Bearer x"}, {"Authorization: Basic a", "Authorization: Bearer b"}}
+	authLines := [][]string{nil, {"Authorization: Bearer x"}, {"authorization: Bearer x"}, {"Authorization: Basic a", "Authorization: Bearer b"}, {"Authorization:", "Authorization: Bearer late"}}
 	asserted := []string{"u@example.com", "", "a,b@example.com"}
 	var out []vx.Scenario
 	idx := 0
